@@ -65,12 +65,12 @@ Section Denotes.
 Variables (c : cfg) (K : kern) (lib : synthlib) (dep : nat) (inev : event).
 
 Inductive denotes : st -> list event -> Prop :=
-| den_stop : forall s, (forall mc, exists o, snext c K lib dep s inev mc = (RStop o, mc)) -> denotes s []
+| den_stop : forall s, (forall mc, exists o ret, snext c K lib dep s inev mc = (RStop o ret, mc)) -> denotes s []
 | den_yield : forall s e s' l, (forall mc, exists o, snext c K lib dep s inev mc = (RYield e s' o, mc)) ->
     denotes s' l -> denotes s (e :: l).
 
 Lemma denotes_done : (0 < dep)%nat -> denotes SDone [].
-Proof. intros H. apply den_stop. intros mc. exists []. destruct dep; [lia|reflexivity]. Qed.
+Proof. intros H. apply den_stop. intros mc. exists [], inev. destruct dep; [lia|reflexivity]. Qed.
 
 (* a Pbind whose value streams are finite lists or constants: its events, with fuel to unfold dict_next *)
 Fixpoint bind_list (fuel : nat) (kvs : list (string * vstream)) : list event :=
@@ -94,7 +94,7 @@ Proof.
   intros Hd fuel. induction fuel as [|f IH]; intros kvs He; [contradiction|].
   cbn [bind_list bind_ends] in *. destruct (dict_next kvs) as [[upd kvs']|] eqn:E.
   - eapply den_yield; [|apply IH; exact He]. intros mc. exists []. destruct dep; [lia|]. cbn [snext]. rewrite E. reflexivity.
-  - apply den_stop. intros mc. exists []. destruct dep; [lia|]. cbn [snext]. rewrite E. reflexivity.
+  - apply den_stop. intros mc. exists [], inev. destruct dep; [lia|]. cbn [snext]. rewrite E. reflexivity.
 Qed.
 
 Lemma Forall2_nth_error_l : forall (A B : Type) (R : A -> B -> Prop) la lb i,
@@ -131,7 +131,7 @@ Proof.
   destruct (nth_error cs (Z.to_nat (itask x))) as [ci|]; destruct (nth_error ls (Z.to_nat (itask x))) as [li|];
     try contradiction; [|reflexivity].
   inversion Hn as [s Hs|s e s' l' Hs Hl']; subst.
-  - destruct (Hs mc) as [o Ho]. rewrite Ho.
+  - destruct (Hs mc) as [o [rt Ho]]. rewrite Ho.
     destruct r as [|y r']; [reflexivity|]. cbn [map po_ev]. f_equal.
     apply IH. apply Forall2_set_nth; [exact HF|apply denotes_done; exact Hd].
   - destruct (Hs mc) as [o Ho]. rewrite Ho. cbv zeta. unfold qadd. cbn [spec_step fst snd].
